@@ -165,6 +165,10 @@ type Entry struct {
 	DashR   string // blanks after the dash
 	QMarks  int    // number of '?' (>= 1) for open ranges
 	Summary []Text // always len >= 1; Summary[0] == "" means no text on the entry line
+
+	// LooseTrail marks entries written by `klog pause`: trailing blanks of their summary lines
+	// are not compared (klog writes `-0m foo ` when there are no tags to append; cosmetic).
+	LooseTrail bool `json:",omitempty"`
 }
 
 // Spaces is the "spaces around dash" notation fact (klog derives it from the left side only).
